@@ -22,10 +22,50 @@ type soundCase struct {
 	good [][]string // per token
 	bad  [][]string
 	odd  [][]string
+	// Neigh, when set, is registered right before (NeighFirst) or after the judged route with a
+	// handler that only calls Next: a neighbour must not change where the judged handler runs.
+	Neigh      *pattern
+	NeighFirst bool
 }
 
-var litsMid = []string{"/", "/a", "/ab", "/user", "/api/v1", "-", ".", "/x-", "/y.", "/Shop", "/a:b", "/q(1)"}
-var litsAfterParam = []string{"/", "/a", "/books", "-", ".", "-x", ".json", "/Edit"}
+// literalTwin replaces one parameter token by the literal spelling of its own pattern text
+// ("/files/*" -> the constant route `/files/\*`).
+func (sc *soundCase) literalTwin(r *gen.Rand) *soundCase {
+	var idx []int
+	for i, t := range sc.Pat.Toks {
+		if t.Kind != tLit {
+			idx = append(idx, i)
+		}
+	}
+	if len(idx) == 0 {
+		return nil
+	}
+	k := gen.Pick(r, idx)
+	tw := &soundCase{Use: sc.Use, Cfg: sc.Cfg}
+	for i, t := range sc.Pat.Toks {
+		if i == k {
+			lit := ""
+			switch t.Kind {
+			case tNamed:
+				lit = ":" + t.Name
+			case tNamedOpt:
+				lit = ":" + t.Name + "?"
+			case tStar:
+				lit = "*"
+			case tPlus:
+				lit = "+"
+			}
+			t = tok{Kind: tLit, Lit: lit}
+			tw.good, tw.bad, tw.odd = append(tw.good, nil), append(tw.bad, nil), append(tw.odd, nil)
+		} else {
+			tw.good, tw.bad, tw.odd = append(tw.good, sc.good[i]), append(tw.bad, sc.bad[i]), append(tw.odd, sc.odd[i])
+		}
+		tw.Pat.Toks = append(tw.Pat.Toks, t)
+	}
+	return tw
+}
+
+var litsAfterParam = []string{"/", "/a", "/books", "-", ".", "-x", ".json", "/Edit", "/c++", "/a:b:c", "-x*y*", "/::x", ".v(1)+"}
 
 func genSoundCase(r *gen.Rand) *soundCase {
 	sc := &soundCase{Cfg: Cfg{CaseSensitive: r.Bool(), Strict: r.Bool(), Unescape: false, CustomCtx: r.Chance(1, 4)}, Use: r.Chance(1, 4)}
@@ -33,7 +73,7 @@ func genSoundCase(r *gen.Rand) *soundCase {
 	names := []string{"id", "name", "p", "q", "Key", "x1"}
 	gen.Shuffle(r, names)
 	var toks []tok
-	first := gen.Pick(r, []string{"/", "/user/", "/a/", "/ab", "/api/v1/", "/Shop/", "/a-", "/f."})
+	first := gen.Pick(r, []string{"/", "/user/", "/a/", "/ab", "/api/v1/", "/Shop/", "/a-", "/f.", "/c++/", "/ns/a:b:c/", "/x*y*/", "/q(1)/"})
 	toks = append(toks, tok{Kind: tLit, Lit: first})
 	sc.good, sc.bad, sc.odd = [][]string{nil}, [][]string{nil}, [][]string{nil}
 	for i := 0; i < n; i++ {
@@ -224,12 +264,24 @@ func runSound(e *ev.Env) {
 			paths = append(paths, p)
 		}
 		checkSound(e, c, sc, paths)
+		// the same route next to its literal twin (and the twin next to the route)
+		if tw := sc.literalTwin(r); tw != nil && r.Chance(1, 3) {
+			twText := tw.Pat.String()
+			first := r.Bool()
+			a := *sc
+			a.Neigh, a.NeighFirst = &tw.Pat, first
+			checkSound(e, c, &a, append([]string{twText, strings.ReplaceAll(twText, `\`, "")}, paths[:10]...))
+			b := *tw
+			b.Neigh, b.NeighFirst = &sc.Pat, !first
+			checkSound(e, c, &b, append([]string{twText, strings.ReplaceAll(twText, `\`, "")}, paths[:10]...))
+		}
 	})
 }
 
 func checkSound(e *ev.Env, c *ev.Case, sc *soundCase, paths []string) {
 	app := sc.Cfg.NewApp()
 	app.RegisterCustomConstraint(evenConstraint{})
+	app.RegisterCustomConstraint(lowerConstraint{})
 	keys := sc.Pat.paramKeys()
 	var obs soundObs
 	h := func(cx fiber.Ctx) error {
@@ -248,14 +300,27 @@ func checkSound(e *ev.Env, c *ev.Case, sc *soundCase, paths []string) {
 	text := sc.Pat.String()
 	var d *drive.Direct
 	if e.Guard(c, "sound|register", text, func() {
-		if sc.Use {
-			app.Use(text, h)
-		} else {
-			app.Get(text, h)
+		reg := func(pt string, hh fiber.Handler) {
+			if sc.Use {
+				app.Use(pt, hh)
+			} else {
+				app.Get(pt, hh)
+			}
+		}
+		pass := func(cx fiber.Ctx) error { return cx.Next() }
+		if sc.Neigh != nil && sc.NeighFirst {
+			reg(sc.Neigh.String(), pass)
+		}
+		reg(text, h)
+		if sc.Neigh != nil && !sc.NeighFirst {
+			reg(sc.Neigh.String(), pass)
 		}
 		d = drive.NewDirect(app)
 	}) {
 		return
+	}
+	if sc.Neigh != nil {
+		e.Stat("with_neighbour_route", 1)
 	}
 	hasCons := false
 	for _, t := range sc.Pat.Toks {
@@ -274,8 +339,13 @@ func checkSound(e *ev.Env, c *ev.Case, sc *soundCase, paths []string) {
 		}
 		e.Eval(1)
 		detail := func() map[string]any {
-			return map[string]any{"pattern": text, "use": sc.Use, "cfg": sc.Cfg.String(), "path": p, "params": obs.vals,
+			m := map[string]any{"pattern": text, "use": sc.Use, "cfg": sc.Cfg.String(), "path": p, "params": obs.vals,
 				"ctx_path": obs.path, "status": resp.Status}
+			if sc.Neigh != nil {
+				m["neighbour_route"] = sc.Neigh.String()
+				m["neighbour_registered_first"] = sc.NeighFirst
+			}
+			return m
 		}
 		if !obs.ran {
 			e.Stat("not_run", 1)
